@@ -511,13 +511,19 @@ static int vsprcatf_core(
                     NumPadZeros          = FormatContext.Arg[0];
                     FormatContext.Arg[0] = 0;
                 }
+
+                /* decimal numbers are also used to build symbol names and
+                   source text that is parsed again: never split them */
+
                 Cnt = (pStr - Str)
                       + SysString(
                               pStr, sizeof(Str) - (pStr - Str), IntArg,
                               FormatContext.Arg[1] ? FormatContext.Arg[1] : 10,
                               NumPadZeros, FormatContext.ForceLeadZero,
                               FormatContext.ForceUpper ? 'A' : HexStartCharacter,
-                              SplitByteCharacter);
+                              (FormatContext.Arg[1] && (FormatContext.Arg[1] != 10))
+                                      ? SplitByteCharacter
+                                      : '\0');
                 if (Cnt > (int)sizeof(Str)) {
                     Cnt = sizeof(Str);
                 }
